@@ -86,6 +86,10 @@ fn run_case(case: &J) -> J {
             "add_type" => {
                 module.types.add_func_type(&[DataType::I64], &[], if tagb.is_empty() { None } else { Some(tag.clone()) });
             }
+            "add_type_parsed" => {
+                // a type equal to one the parsed module already has: nothing is added
+                module.types.add_func_type(&[], &[], if tagb.is_empty() { None } else { Some(tag.clone()) });
+            }
             "build" => {
                 let mut fb = FunctionBuilder::new(&[DataType::I32], &[]);
                 fb.add_local(DataType::I64);
